@@ -232,6 +232,8 @@ def assign(self: Interp, target, val, st: State):
         if isinstance(base, Opt):
             self.safety(st, znot(base.is_none), "subscript-not-None", target)
             base = base.val
+        if isinstance(base, Opaque) and base.cls in lib.OPAQUE_SETITEM:
+            return lib.OPAQUE_SETITEM[base.cls](self, st, base, target.slice, val, target)
         if isinstance(base, Ref) and base.what == "dict":
             k = self.eval(target.slice, st)
             d = st.heap[base.rid]
@@ -250,7 +252,22 @@ def assign(self: Interp, target, val, st: State):
                 d = st.heap[base.rid]
                 items = dict(d.items)
                 items[k.text] = val
-                st.heap[base.rid] = CDict(items)
+                st.heap[base.rid] = CDict(items, d.fam)
+                return
+            if isinstance(k, VStr) and k.fparts is not None:
+                d = st.heap[base.rid]
+                prefix, dz = k.fparts[0], to_z3(k.fparts[1])
+                oh, og = d.fam.get(prefix, (lambda e: z3.BoolVal(False), None))
+                if isinstance(val, Ref) and val.what == "arr":
+                    val = st.heap[val.rid]      # snapshot (columns stored in a dict are not mutated afterwards)
+
+                def get(e, val=val, og=og, dz=dz):
+                    if og is None:
+                        return val
+                    return lib._ite_val(to_z3(e) == dz, val, og(e))
+                fam = dict(d.fam)
+                fam[prefix] = ((lambda e, oh=oh, dz=dz: z3.Or(to_z3(e) == dz, oh(e))), get)
+                st.heap[base.rid] = CDict(d.items, fam)
                 return
             # f-string keys etc.: the dict becomes opaque-keyed
             d = st.heap[base.rid]
@@ -470,10 +487,48 @@ def apply_havoc(self: Interp, st: State, mods):
             elif isinstance(cell, DictV):
                 nv = fresh_like(Ref(loc[1], "dict"), "loopdict", st)
                 st.heap[loc[1]] = st.heap.pop(nv.rid)
+            elif isinstance(cell, CDict) and isinstance(post, CDict):
+                st.heap[loc[1]] = _havoc_cdict(cell, post, st)
             else:
                 raise Unsupported("loop modifies a concrete dict")
         elif loc[0] == "ghost":
             st.ghost[loc[1]] = fresh_like(post if pre is None else pre, "ghost." + loc[1], st)
+
+
+def _havoc_cdict(cell: CDict, post: CDict, st):
+    """A concrete-key dict written in a loop: values of changed keys and whole key families become unknown."""
+    if set(post.items) != set(cell.items):
+        raise Unsupported("loop adds constant keys to a dict")
+    items = {}
+    for k, v in cell.items.items():
+        items[k] = v if _same(v, post.items[k]) else fresh_like(v, "loopdict." + str(k), st)
+    fam = {}
+    for prefix, (ph, pg) in post.fam.items():
+        nm = fresh_name("loopfam_" + prefix)
+        has = z3.Function(nm + "#has", z3.IntSort(), z3.BoolSort())
+        sample = pg(z3.Int(fresh_name("probe")))
+        if isinstance(sample, Ref) and sample.what == "arr":
+            sample = st.heap[sample.rid]
+        if isinstance(sample, Arr):
+            nd = sample.ndim
+            shf = [z3.Function(f"{nm}#s{k}", z3.IntSort(), z3.IntSort()) for k in range(nd)]
+            real = sample.etype not in ("int", "bool", "nat")
+            ef = z3.Function(nm + "#el", *([z3.IntSort()] * (nd + 1)), z3.RealSort() if real else z3.IntSort())
+
+            def get(e, shf=shf, ef=ef, sample=sample):
+                ez = to_z3(e)
+                for f in shf:
+                    st.fact(f(ez) >= 0)
+                return Arr(tuple(f(ez) for f in shf), lambda *idx: ef(ez, *[to_z3(i) for i in idx]), kind=sample.kind,
+                           etype=sample.etype)
+        elif is_num(sample):
+            vf = z3.Function(nm + "#v", z3.IntSort(), z3.RealSort() if (is_z3(sample) and z3.is_real(sample)) or
+                             isinstance(sample, float) else z3.IntSort())
+            get = lambda e, vf=vf: vf(to_z3(e))   # noqa: E731
+        else:
+            raise Unsupported("loop writes a dict key family of unsupported value kind")
+        fam[prefix] = ((lambda e, has=has: has(to_z3(e))), get)
+    return CDict(items, fam)
 
 
 def _havoc_val(pre, post, name, st):
